@@ -485,6 +485,69 @@ def block_tie_pass(ck, quick, corpus):
     return len(bodies)
 
 
+PPROG_FIXED = [
+    "", "pub", "pub fn main(x: u8) -> u8 { x }", "fn f(x: u8) -> u8 { x } pub fn main(mut acc: u8, s: S,) -> u8 { acc += f(s.a); acc }",
+    "const N: usize = 4; const M: usize = max(PARTY_0::N, 2 + N) - 1usize; const B: bool = true; pub fn main(a: [u8; N]) -> [u8; M] { a }",
+    "struct S { b: [u8; 2], a: (u8, bool), } enum E { A, B(u8, (u8, bool), [u8; 2]), C(), } pub fn main(s: S) -> E { E::B(s.a.0, s.a, s.b) }",
+    "pub struct S { a: u8 } pub enum E { A } pub const C: u8 = 1u8; pub fn main(x: u8) -> u8 { x }",
+    "fn f(x: u8) -> u8 { x } fn g(x: u8) -> u8 { x } fn f(y: u16) -> u16 { y } pub fn main(x: u8) -> u8 { g(x) }",
+    "struct S { a: u8 } struct S { b: u16 } pub fn main(x: u8) -> u8 { x }", "enum E { A((u8, u8)) } pub fn main(x: u8) -> u8 { x }",
+    "enum E { A([u8; 2]) } pub fn main(x: u8) -> u8 { x }", "enum E { } pub fn main(x: u8) -> u8 { x }", "pub pub fn main(x: u8) -> u8 { x }",
+    "pub fn main(x: u8) { x }", "pub fn main(x: u8) -> u8 { x", "pub fn main(x u8) -> u8 { x }", "pub fn main(, x: u8) -> u8 { x }",
+    "struct S { a: u8 b: u8 } pub fn main(x: u8) -> u8 { x }", "struct S(u8); pub fn main(x: u8) -> u8 { x }", "let x = 1; pub fn main(x: u8) -> u8 { x }",
+    "const C: u8 = f(1); pub fn main(x: u8) -> u8 { x }", "const C: u8 = a * b; pub fn main(x: u8) -> u8 { x }", "const C: u8 = P::n(1); pub fn main(x: u8) -> u8 { x }",
+    "const C: u8 = 1u8 pub fn main(x: u8) -> u8 { x }", "const C = 1u8; pub fn main(x: u8) -> u8 { x }", "pub fn main(x: u8) -> u8 { x };",
+    "const C: usize = min(1, 2, max(3)) + P::X - 2; pub fn main(x: [u8; const { C + 1 }]) -> u8 { let y: [u8; const { max(C, 2) }] = z; (y as [u8; const { 1 }])[0] }",
+    "pub fn main(x: [u8; const { f(1) }]) -> u8 { 0 }", "const C: i8 = -1i8; const D: i8 = -C; pub fn main(x: u8) -> u8 { x }", "const T: (u8, u8) = (1, 2); pub fn main(x: u8) -> u8 { x }",
+]
+
+
+def program_tie_pass(ck, quick, corpus):
+    """the Gallina model of the WHOLE parser (items, consts, struct / enum / function definitions: parse_program_text)
+    against the real parser on program texts: same untyped program (maps sorted by name), or both refuse"""
+    import progcheck as PC
+    import scenarios
+    rng = ck.rng
+    progs = [("fixed", t) for t in PPROG_FIXED]
+    progs += [("corpus", src) for _, src in corpus]
+    progs += [("generated", src) for _, src in PC.generated_sources(ck, 80 if quick else 2500)]
+    progs += [("scenario", src) for _, src in scenarios.all_sources()]
+    base = [t for _, t in progs[len(PPROG_FIXED):]]
+    for t in rng.sample(base, min(len(base), 80 if quick else 2500)):
+        toks = re.findall(r"\w+|[^\w\s]", t)
+        if len(toks) > 3 and "//" not in t and "/*" not in t:
+            k = rng.randrange(len(toks))
+            progs.append(("damaged", " ".join(toks[:k] + toks[k + 1:])))
+            progs.append(("damaged", " ".join(toks[:k] + [rng.choice([";", "{", "}", "=", "pub", "fn", "struct", "enum", "const", ",", "(", ")", ":", "->", "mut", "::"])] + toks[k:])))
+    jobs = [f"(pprog g{i} (src {quote(t)}))" for i, (_, t) in enumerate(progs)]
+    rs = run_jobs(GVRUN, jobs, "c07.pprog.rs", timeout_per_job=2.0)
+    ml = run_jobs(MODELRUN, jobs, "c07.pprog.ml", timeout_per_job=2.0)
+    cnt, bad = {}, 0
+    for i, (kind0, t) in enumerate(progs):
+        r, m = rs.get(f"g{i}", "(no-result)").strip(), ml.get(f"g{i}", "(no-result)").strip()
+        if r == "(outside)" or m == "(outside)":
+            kind = "outside-model"
+        elif r == m:
+            kind = "same-program" if r.startswith("(prog") else "both-refuse"
+        else:
+            kind = "differ"
+            bad += 1
+            if bad <= 3:
+                k = next((j for j in range(min(len(r), len(m))) if r[j] != m[j]), 0)
+                ck.violation("the model of the parser (Front/ParseExpr.v parse_program_text) and src/parse.rs build different "
+                             "untyped programs for this text",
+                             {"program": t, "rust": r[max(0, k - 150):k + 150], "model": m[max(0, k - 150):k + 150],
+                              "correspondence": "Front/ParseExpr.v parse_program_text vs garble_lang parser"}, found_input=False)
+        cnt[kind0 + ":" + kind] = cnt.get(kind0 + ":" + kind, 0) + 1
+    same = sum(v for k, v in cnt.items() if k.endswith("same-program"))
+    ck.obligation("correspondence Front/ParseExpr.v = src/parse.rs on whole programs: the model parser builds the same untyped "
+                  "program (constants, struct / enum / function definitions, bodies) as the real parser, or both refuse, on "
+                  "every fixed, corpus, scenario, generated and damaged program text", bad == 0, f"{bad} differ")
+    ck.obligation("program-parser tie: at least 150 programs are compared item by item", same >= 150, str(cnt))
+    ck.coverage["program_parser_model_tie"] = {"programs": len(progs), "by_kind": cnt}
+    return len(progs)
+
+
 def run(ck):
     quick = ck.tier == "quick"
     rng = ck.rng
@@ -807,6 +870,7 @@ def run(ck):
     n_eval = len(sjobs) + len(pj) + len(fjs)
     n_pexpr = parser_tie_pass(ck, quick) if (ck.harness_ok and ck.model_ok) else 0
     n_pblock = block_tie_pass(ck, quick, corpus) if (ck.harness_ok and ck.model_ok) else 0
+    n_pprog = program_tie_pass(ck, quick, corpus) if (ck.harness_ok and ck.model_ok) else 0
     ck.coverage.update({
         "evaluations": n_eval,
         "distinct_nontrivial": len(set(t for _, t in stexts if len(t) >= 4)) + len(set(t for _, t, _ in fj if len(t) >= 4)),
